@@ -149,9 +149,12 @@ pub fn observe_with(
     probe_tables: bool,
     host_override: Option<(u32, Vec<RModel>)>,
 ) -> Result<(Vec<Step>, u64), String> {
+    // the interpreter assumes validated code
+    crate::optable::validate_walrus(bytes).map_err(|e| format!("invalid module: {}", e))?;
     let m = load(bytes).map_err(|e| e.to_string())?;
     let mut calls = 0u64;
-    let r = observe_inner(&m, script, host_seed, probe_tables, host_override, &mut calls)?;
+    let r = crate::run::guard("interpreter", || observe_inner(&m, script, host_seed, probe_tables, host_override, &mut calls))
+        .map_err(|f| format!("interpreter-panic: {}", f.detail))??;
     Ok((r, calls))
 }
 
